@@ -101,6 +101,7 @@ class CallMixin:
         c = self.contracts.get(fn.key)
         if c is None: raise Undecided('call to %s which has neither a contract nor an inline declaration' % fn.key)
         if c.get('inline'): return ('inline', fn, selfv)
+        if c.get('pure_text'): return ('model', lambda ex, p, args, kwargs, e, _n=fn.qualname: VStr([('pure', _n, args)]))
         return ('contract', fn, c, selfv)
 
     # ---------------------------------------------------------------- expression-level calls
@@ -327,6 +328,7 @@ class CallMixin:
             if isinstance(v, VEnum): return VStr([v.cls + '.' + v.name])
             if isinstance(v, VEnumSym): return VStr([('enum', v.cls, v.t)])
             if isinstance(v, VRef): return self.str_of_ref(v, p, line)
+            if isinstance(v, (VUnion, VList, VCList)): return VStr([('val', v)])
             raise Undecided('str of %r' % (v,))
         if n == 'int':
             v = a[0]
@@ -416,6 +418,8 @@ class CallMixin:
                 return VStr(atoms)
             if name == 'replace': return self.str_replace(recv, a, p, line)
             if name == 'split': return self.str_split(recv, a, p, line)
+        if isinstance(recv, VReal) and name == 'total_seconds': return recv          # timedelta modelled as seconds (T12)
+        if isinstance(recv, VReal) and name == 'strftime': return VStr([('pure', 'strftime', [recv])])
         if isinstance(recv, VTok) and name == 'replace':
             if len(a) == 2 and isinstance(a[0], VStr) and a[0].atoms in (['('], [')']) and isinstance(a[1], VStr) and not a[1].atoms:
                 return VTok(recv.t, recv.removed | {a[0].atoms[0]})
@@ -450,4 +454,4 @@ class CallMixin:
 BUILTINS = {'len', 'str', 'int', 'float', 'max', 'min', 'abs', 'pow', 'isinstance', 'hasattr', 'list', 'range', 'print'}
 SPECFUNS = {'forall', 'exists', 'implies', 'ite', 'old', 'kind', 'value', 'Sum', 'Count', 'iff', 'forall2', 'tok',
             'select', 'has', 'attr', 'store_len', 'nu', 'Tot', 'alloc', 'real', 'SumR', 'opt_is_none', 'opt_val',
-            'joined', 'after', 'lam', 'is_list', 'is_int', 'py_int', 'py_head', 'py_tail', 'py_len', 'elems', 'pelems', 'dupfree', 'appended', 'lemma', 'ModelWF', 'unchanged', 'distinct_refs', 'Row', 'LL', 'PL'}
+            'has_text', 'ENUM_len', 'rec', 'joined', 'after', 'lam', 'is_list', 'is_int', 'py_int', 'py_head', 'py_tail', 'py_len', 'elems', 'pelems', 'dupfree', 'appended', 'lemma', 'ModelWF', 'unchanged', 'distinct_refs', 'Row', 'LL', 'PL'}
